@@ -10,6 +10,7 @@ from raysect.optical import World, Ray
 from cherab.tools.raytransfer import RayTransferBox, RayTransferCylinder
 
 from ..core import Given
+from ..findings import is_open
 from ..oracles import chords as CH
 
 ID = "C10"
@@ -31,7 +32,9 @@ RULE = ("Case = one ray-transfer object (box: nx,ny,nz in 1..6, cells 0.05..2 m;
         "violation. Non-trivial (per case: at least one of its rays) = the ray crosses >= 3 cells and at least one of: passes "
         "within 1e-9 m of a grid edge/corner, is tangential to a grid ring (closest approach within 1e-9 m of a ring radius), "
         "starts inside, crosses a masked / -1 cell, phi-wraps (crosses the phi = 0 seam of a sector or visits a periodic copy); "
-        "distinct by case hash.")
+        "distinct by case hash. While the known finding C10-axis-hole-zero-row is open, rays of radius_inner = 0 cylinders that "
+        "pass the axis closer than 10 radii of the artificial axis hole (1e-4 dr) are marked excluded_known by the generator "
+        "and the oracle models that hole; once it is fixed the oracle expects no hole at radius_inner = 0.")
 ASSUMPTIONS = ["raysect's Ray.trace / Box / Cylinder / Subtract are trusted: a volume is integrated between the surface hits of the "
                "bounding primitive (or from the ray origin when it lies inside), null surfaces neither count in the ray depth nor "
                "trigger extinction, a ray that passed a surface is re-launched <= 1e-9 m from the hit point",
@@ -39,7 +42,9 @@ ASSUMPTIONS = ["raysect's Ray.trace / Box / Cylinder / Subtract are trusted: a v
                "bounding primitive = grid volume shrunk by 1e-5 cell (raytransfer.py), dr = (r_out - r_in)/n_r etc.",
                "the integration scheme anchored by the property: per volume segment n = max(2, int(length/step)) midpoint samples, "
                "dt = length/n, segment skipped when length < 0.1 step",
-               "standard right-handed rotation matrices for raysect's rotate_x/y/z, translate"]
+               "standard right-handed rotation matrices for raysect's rotate_x/y/z, translate",
+               "generated floats with |v| < 1e-6 are snapped to 0 (raysect's Cylinder.hit misses when the square of a direction "
+               "component underflows; see notes/C10-raysect-tangent-inner-cylinder.py)"]
 TOLERANCES = {
     "per source (statement: two integration steps)":
         "lo - max(2 dt, k_lo dt) - 1e-9(1+L) <= entry <= hi + max(2 dt, k_hi dt) + 1e-9(1+L); dt = length/n of the segment actually "
@@ -54,8 +59,11 @@ TOLERANCES = {
              "0.1 step is documented to be skipped and is allowed to miss",
     "ambiguity": "pieces of the ray closer than DELTA = 3e-8 m to a surface are allowed to belong to either side (raysect shifts "
                  "re-launched rays by 1e-9 m, transforms round at 1e-15); the bounding primitive is clipped at the documented 1e-5-cell "
-                 "shrink, not loosened; when a primitive surface is touched in the middle of the chord (segmentation unknown) dt is "
-                 "replaced by its upper bound 1.5 step",
+                 "shrink, not loosened; when a primitive surface is touched without a clean crossing (in-plane on a cap, tangent to "
+                 "the inner/outer cylinder within DELTA: segmentation decided by raysect's CSG, which was observed to drop half of "
+                 "the chord of a ray tangent to the subtracted inner cylinder) dt is replaced by its upper bound 1.5 step and only "
+                 "the upper bounds are demanded (label ray:ambiguous-segmentation); a ray whose origin lies within DELTA of a "
+                 "primitive surface is only traced (exceptions count), raysect decides whether it starts inside",
     "merged map": "1e-9 (1 + L): same samples, only the order of the floating-point additions differs",
     "midpoint replica": "entry = dt * (number of midpoint samples in the source) within 1e-9 (1 + L); samples closer to a piece boundary "
                         "than the uncertainty of the segment ends (band widths of the entry/exit surfaces + 3e-8 m) count as possible "
@@ -65,6 +73,8 @@ REQUIRED_LABELS = ["box:ray:edge", "box:ray:inside", "box:ray:axis", "box:ray:pl
                    "box:map:merge", "box:map:mask", "cyl:ray:tangent", "cyl:ray:halfplane", "cyl:ray:axis", "cyl:ray:edge",
                    "cyl:ray:throughaxis", "cyl:nt:wraps", "cyl:nt:tangent", "cyl:axisymmetric", "cyl:period<360", "cyl:rmin>0",
                    "cyl:rmin=0", "cyl:map:merge"]
+
+AXIS_HOLE = "C10-axis-hole-zero-row"     # open: radius_inner = 0 still gets an inner bounding cylinder of radius 1e-5 dr
 
 PERIODS = [360.0, 180.0, 120.0, 90.0, 72.0, 60.0, 45.0]
 SIZES = [0.05, 0.1, 0.25, 0.5, 1.0, 2.0]
@@ -179,9 +189,9 @@ def _cyl_ray(draw, n, nsurf):
     cls = draw(st.sampled_from(["two", "axis", "tangent", "tangent", "edge", "halfplane", "throughaxis", "inside"]))
     off = lambda: draw(st.sampled_from(OFFS))       # noqa: E731
     nang = max(nsurf, 1)
-    dang = 360.0 / nang                             # phi lattice unit in degrees is dphi when nsurf > 0, else 360
+    # phi lattice unit: dphi (all 360/dphi half-planes, i.e. every periodic copy) when n_polar > 1, else 360 deg
 
-    def cylpoint(ir, ip, iz, rl_range=None):
+    def cylpoint(ir, ip, iz):
         rl = draw(st.integers(0, nr)) if ir else draw(_fl(0.0, float(nr)))
         pl = draw(st.integers(0, nang - 1)) if ip else draw(_fl(0.0, float(nang)))
         zl = draw(st.integers(0, nz)) if iz else draw(_fl(0.0, float(nz)))
@@ -242,12 +252,20 @@ def cyl_case(draw):
     dr, dz = _size(draw), _size(draw)
     rmin = draw(st.sampled_from([0.0, 0.0, 0.0, 0.05, 0.5, 3.0])) if draw(st.integers(0, 2)) else draw(_fl(0.05, 3.0))
     nsurf = nphi * int(round(360.0 / period)) if nphi > 1 else 0
-    return {"kind": "cyl", "n": [nr, nphi, nz], "dr": dr, "dz": dz, "rmin": rmin, "period": period,
+    case = {"kind": "cyl", "n": [nr, nphi, nz], "dr": dr, "dz": dz, "rmin": rmin, "period": period,
             "step": draw(st.sampled_from(STEPS)), "vox": _voxels(draw, nr * nphi * nz),
             "via": draw(st.sampled_from(["ctor", "setter"])), "place": _placement(draw),
             "wl": [draw(_fl(100.0, 900.0)), draw(_fl(0.01, 300.0))],
             "krot": draw(st.integers(1, 7)),
             "rays": [draw(_cyl_ray([nr, nphi, nz], nsurf)) for _ in range(NRAYS)]}
+    if rmin == 0 and is_open(AXIS_HOLE):
+        # known finding: rays that pass the axis closer than 10 radii of the artificial axis hole are taken out
+        grid, _, _ = _geometry(case)
+        for ray in case["rays"]:
+            o, u = _local_ray(case, grid, ray)
+            if CH._cyl_ray(o, u)[2] < 10 * grid.r_lo:
+                ray["excluded_known"] = True
+    return case
 
 
 # ------------------------------------------------------------------------------------------------ building
@@ -270,7 +288,7 @@ def _geometry(case):
         r_in = case["rmin"]
         r_out = r_in + nr * case["dr"]
         height = nz * case["dz"]
-        grid = CH.CylGrid(nr, nphi, nz, r_in, r_out, height, case["period"])
+        grid = CH.CylGrid(nr, nphi, nz, r_in, r_out, height, case["period"], axis_hole=is_open(AXIS_HOLE))
         default_step = 0.1 * min(grid.dr, grid.dz)
         cells = min(grid.dr, grid.dz)
         args = dict(radius_outer=r_out, height=height, n_radius=nr, n_height=nz, radius_inner=r_in, n_polar=nphi, period=case["period"])
@@ -446,6 +464,9 @@ def run(case, ctx):
         ctx.check(bins_id == int(act.sum()), "bins", lambda: "mask with %d active cells gives bins = %r" % (int(act.sum()), bins_id))
     any_nt = False
     for ray in case["rays"]:
+        if ray.get("excluded_known"):
+            ctx.label("excluded_known")
+            continue
         o, u = _local_ray(case, grid, ray)
         e = _trace(ctx, world, nbins, M, o, u, case["wl"])
         ch = CH.chord(grid, o, u)
@@ -484,6 +505,6 @@ def run(case, ctx):
 
 SHARDS = {"quick": 8, "thorough": 16}
 SUBCHECKS = {
-    "box": Given(box_case, run, quick=480, thorough=30000),
-    "cyl": Given(cyl_case, run, quick=720, thorough=45000),
+    "box": Given(box_case, run, quick=1200, thorough=30000),
+    "cyl": Given(cyl_case, run, quick=1800, thorough=45000),
 }
